@@ -87,6 +87,9 @@ def field_desc(rng, spec):
             x["radius"] *= 1.5
             ds.append(x)
         d["droplets"] = ds
+    if rng.random() < 0.25:
+        # pixel types of real images: integer grey values, single precision, and binary (segmented) images
+        d["dtype"] = str(rng.choice(["float32", "uint8", "uint16", "int16", "int64", "bool"]))
     return d
 
 
@@ -120,6 +123,18 @@ def make_field(grid, spec, d):
 
         em = droplets.Emulsion([make_droplet(x) for x in d["droplets"]])
         data = np.asarray(em.get_phasefield(grid).data, float)
+    if d.get("dtype"):
+        dt = np.dtype(d["dtype"])
+        if dt.kind == "b":
+            data = data > (float(data.min()) + float(data.max())) / 2
+        elif dt.kind in "iu":
+            info = np.iinfo(dt)
+            span = float(np.ptp(data)) or 1.0
+            top = min(int(info.max), 60000)
+            data = np.round((data - float(data.min())) / span * min(200, top - 20)) + (top - 220 if top > 400 else 20)
+            if dt.kind == "i" and d["seed"] % 2:
+                data = data - float(data.max()) + max(int(info.min), -30000) + 250  # dark end of a signed type
+        return ScalarField(grid, data.astype(dt), dtype=dt)
     return ScalarField(grid, data)
 
 
@@ -170,6 +185,16 @@ def gen(rng, kind, tier):
         if min(spec["shape"]) < 1:
             return None
         d = _rand_droplet(rng, spec)
+        if rng.random() < 0.08:
+            # a sharp droplet of a class with an interface width (width exactly 0) whose interface passes exactly
+            # through cell centres: unit cells, centre on a cell centre, whole-number radius
+            dim = int(rng.choice([1, 2, 2, 3]))
+            n = int(rng.integers(5, 10))
+            lo = float(rng.integers(-3, 4))
+            spec = {"family": "cart", "bounds": [[lo, lo + n]] * dim, "shape": [n] * dim, "periodic": [bool(rng.integers(0, 2)) for _ in range(dim)]}
+            cls = "DiffuseDroplet" if dim != 2 or rng.random() < 0.5 else "PerturbedDroplet2D"
+            d = {"cls": cls, "pos": [lo + int(rng.integers(1, n - 1)) + 0.5 for _ in range(dim)], "radius": float(rng.integers(1, max(2, n // 2))),
+                 "width": 0.0, "amps": [0.0, 0.0] if cls.startswith("Perturbed") else None}
         return {"grid": spec, "droplet": d, "vmin": float(rng.choice([0.0, -2.0])), "vmax": float(rng.choice([1.0, 3.5]))}
     if kind == "track":
         h = tracking.random_history(rng, overlapping=bool(rng.random() < 0.3))
